@@ -10,6 +10,13 @@ CHECKS = {
  'C06': dict(cat='model_checking', engine='cbmc', technique='CBMC with nondeterministic OS-call stubs (fault schedule as solver variables) + configuration-enumerated compile pipeline harness with a stub back end',
              text='All failure combinations of getenv/mkstemp/ftruncate/mmap in one query per harness: no descriptor or mapping leak, MAP_FAILED never used; _orc_compiler_init forces backup+emulate when no executable memory; compile result classification and executor dispatch (native/backup/emulate, program-attached and code-only) for every enumerated configuration.',
              note='OS modelled as may-fail stubs; malloc failure outside; emulation result itself is C02, native==emulation is C01.', ref='DESIGN.md#c06'),
+
+ 'C19': dict(cat='model_checking', engine='cbmc', technique='CBMC on orccpu-x86.c/orctarget.c/orcprogram-{mmx,sse,avx}.c with cpuid/xgetbv replaced (ORC_VERIF hook) by fully symbolic 32-bit register words; exhaustive over feature words',
+             text='For every value of the CPUID leaves and XCR0 (one SAT query per vendor path): executable marks, default flags, default target = best executable backend, override semantics (unknown / non-executable names never returned by the default path), and the override variable equals the one in doc/running.xml.',
+             note='Hook replaces the cpuid/xgetbv instructions; max basic leaf <= 1 (cache-descriptor walks excluded); ORC_CODE -feature switches assumed absent.', ref='DESIGN.md#c19'),
+ 'C20': dict(cat='model_checking', engine='cbmc', technique='CBMC on orcopcode.c/orcrule.c/orctarget.c/orcexecutor.c with symbolic opcode names, rule-set flags and query flags; configurations (set counts, majors, fill level) enumerated',
+             text='Lookup order (first match in registration order, built-ins unchanged), owning-set resolution, rule slot frame, newest-satisfied-rule-set precedence, and emulation dispatch to the application function with the program operand pointers, for all names/flags inside the bounds.',
+             note='Names: first byte fixed per configuration, <=3 further arbitrary bytes; <=3 extra sets; capacity overflow of rule_sets[]/targets[] is outside the property.', ref='DESIGN.md#c20'),
 }
 
 NOT_APPLICABLE = {
@@ -48,6 +55,6 @@ def main():
     print('MANIFEST.json: %d checks, %d not_applicable' % (len(checks), len(na)))
 
 
-HOOK_COMMITS = []
+HOOK_COMMITS = ['737203e']
 if __name__ == '__main__':
     main()
